@@ -22,15 +22,17 @@ def bits2octets(b, q, qlen, rolen):
     return int2octets(z2 if z2 >= 0 else z1, rolen)
 
 
-def nonces(q, x, h1, hashfunc):
-    """generator of candidate nonces k (the first one in [1, q-1] is used unless r or s is 0)"""
+def nonces(q, x, h1, hashfunc, extra=b"", stats=None):
+    """generator of candidate nonces k (the first one in [1, q-1] is used unless r or s is 0).
+    extra = additional data k' of section 3.6: appended to the HMAC input in steps d and f ONLY (not in
+    the retry step h.3).  stats["rejected"] counts candidates outside [1, q-1]."""
     qlen = q.bit_length()
     rolen = (qlen + 7) // 8
     hlen = hashfunc().digest_size
     V = b"\x01" * hlen
     K = b"\x00" * hlen
     mac = lambda k, m: hmac.new(k, m, hashfunc).digest()
-    bx = int2octets(x, rolen) + bits2octets(h1, q, qlen, rolen)
+    bx = int2octets(x, rolen) + bits2octets(h1, q, qlen, rolen) + extra
     K = mac(K, V + b"\x00" + bx)
     V = mac(K, V)
     K = mac(K, V + b"\x01" + bx)
@@ -43,6 +45,8 @@ def nonces(q, x, h1, hashfunc):
         k = bits2int(T, qlen)
         if 1 <= k < q:
             yield k
+        elif stats is not None:
+            stats["rejected"] = stats.get("rejected", 0) + 1
         K = mac(K, V + b"\x00")
         V = mac(K, V)
 
@@ -51,10 +55,14 @@ def first_nonce(q, x, h1, hashfunc):
     return next(nonces(q, x, h1, hashfunc))
 
 
-def sign(q, x, h1, hashfunc, point_mul_x):
+def first_nonce_stats(q, x, h1, hashfunc, extra, stats):
+    return next(nonces(q, x, h1, hashfunc, extra, stats))
+
+
+def sign(q, x, h1, hashfunc, point_mul_x, extra=b"", stats=None):
     """-> (r, s); point_mul_x(k) returns the affine x coordinate of k*G"""
     z = bits2int(h1, q.bit_length())
-    for k in nonces(q, x, h1, hashfunc):
+    for k in nonces(q, x, h1, hashfunc, extra, stats):
         r = point_mul_x(k) % q
         if r == 0:
             continue
